@@ -10,28 +10,13 @@ parameter cursor, the matched entry, cmd_raw, stale bytes of the input buffer be
 data, the event history — is unconstrained.
 -/
 import ScpiVerif.Model.Ctx
+import ScpiVerif.Spec.Isolation
 import ScpiVerif.Lemmas.Isolation
 
 namespace ScpiVerif.Props.C09
 open ScpiVerif ScpiVerif.Ctx ScpiVerif.Lexer
 
-def SameQueue (q1 q2 : Fifo.EQ) : Prop :=
-  Fifo.Inv q1.fifo ∧ Fifo.Inv q2.fifo ∧ q1.fifo.size = q2.fifo.size ∧ Fifo.EQ.abs q1 = Fifo.EQ.abs q2
-
-/-- same register file and queue bookkeeping (the callback logs kept in the model for other properties are history, not state) -/
-def SameRegs (r1 r2 : Regs.St) : Prop := r1.regs = r2.regs ∧ r1.qn = r2.qn ∧ r1.cap = r2.cap
-
-def Rel (c1 c2 : Ctx) : Prop :=
-  c1.cmds = c2.cmds ∧ c1.choices = c2.choices ∧ c1.withInfo = c2.withInfo ∧
-  c1.bufLen = c2.bufLen ∧ c1.buf.length = c1.bufLen ∧ c2.buf.length = c2.bufLen ∧
-  c1.position = c2.position ∧ c1.position < c1.bufLen ∧ c1.buf.take c1.position = c2.buf.take c2.position ∧
-  SameRegs c1.regs c2.regs ∧ SameQueue c1.eq c2.eq
-
-/-- what one call makes observable: new events (handler invocations with effective headers, every
-parameter delivered, every error queued, the message parsed, the call's return value), new output
-bytes, new flushes -/
-def newObs (c c' : Ctx) : List Ev × Bytes × Nat :=
-  (c'.events.drop c.events.length, c'.out.written.drop c.out.written.length, c'.out.flushes - c.out.flushes)
+-- `SameQueue`, `SameRegs`, `Rel`, `newObs` are defined in ScpiVerif/Spec/Isolation.lean (this namespace)
 
 /-- one input call on related contexts: same observations, and the results are related again -/
 theorem input_noninterference (c1 c2 : Ctx) (h : Rel c1 c2) (data : Bytes) :
